@@ -1820,4 +1820,114 @@ theorem start_decomp (fs : FS) (al : List AFile) (hrep : Rep fs al) (hwf : WF al
     refine ⟨A, f, B, pre, g, post, hal, hgs, ?_, hallitems, hearly, by rw [hfromEq]; exact hlo, by rw [hfromEq]; exact hsortedItems⟩
     simp only [hfo, Option.map_some, hsec, hoff]
 
+
+/-! ### crash states: the last file may end in a torn line -/
+
+theorem splitLines_torn (t : Bytes) (h : 10 ∉ t) : splitLines t = if t = [] then [] else [t] := by
+  by_cases e : t = []
+  · simp [e, splitLines]
+  · simp [e, splitLines_tail t h e]
+
+/-- reading a file that ends in a torn line: the complete lines as always, then at most one more item (the torn line misread) -/
+theorem rangeOneFile_torn (gs pre post : List Group) (hsplit : gs = pre ++ post) (t : Bytes) (ht : 10 ∉ t) (bs es : Nat) (res : List Char) (prev : Nat)
+    (hg : ∀ it ∈ groupsItems post, GoodItem it) (hcap : prev + (groupsItems post).length + 1 < MAX_ITEM_AMOUNT) :
+    ∃ extra c, extra.length ≤ 1 ∧
+      rangeOneFile (groupsBytes gs ++ t) (groupsBytes pre).length bs es res prev =
+        ⟨(((groupsItems post).map stored).takeWhile (inWin bs es)).filter (resMatch res) ++ extra, c⟩ ∧
+      (((groupsItems post).map stored).all (inWin bs es) = false → extra = []) := by
+  unfold rangeOneFile
+  rw [hsplit, groupsBytes_append, List.append_assoc, List.drop_left, groupsBytes_eq_items post,
+    splitLines_items (groupsItems post) hg t, splitLines_torn t ht]
+  rw [rangeLoop_good bs es res prev (groupsItems post) _ [] hg (by simp; omega)]
+  by_cases hall : ((groupsItems post).map stored).all (inWin bs es) = true
+  · rw [if_pos hall, takeWhile_all _ _ hall]
+    by_cases e : t = []
+    · simp only [e, if_true, List.append_nil]
+      exact ⟨[], true, by simp, by simp [rangeLoop], by simp [hall]⟩
+    · simp only [e, if_false, rangeLoop]
+      cases hp : parseLine (dropLastCR t) with
+      | none =>
+        exact ⟨[], true, by simp, by simp [rangeLoop], by simp [hall]⟩
+      | some x =>
+        simp only []
+        by_cases hw : x.ts / 1000 < bs ∨ x.ts / 1000 > es
+        · rw [if_pos hw]
+          exact ⟨[], false, by simp, by simp, by simp [hall]⟩
+        · rw [if_neg hw]
+          by_cases hm : res.isEmpty = true ∨ res = x.resource
+          · rw [if_pos hm]
+            split
+            · exact ⟨[x], false, by simp, by simp, by simp [hall]⟩
+            · exact ⟨[x], true, by simp, by simp [rangeLoop], by simp [hall]⟩
+          · rw [if_neg hm]
+            split
+            · exact ⟨[], false, by simp, by simp, by simp [hall]⟩
+            · exact ⟨[], true, by simp, by simp [rangeLoop], by simp [hall]⟩
+  · rw [if_neg hall]
+    exact ⟨[], false, by simp, by simp, by simp⟩
+
+
+theorem dropLast_cons_cons_mem {α} (a b : α) (r : List α) (x : α) (h : x ∈ (b :: r).dropLast) : x ∈ (a :: b :: r).dropLast := by
+  simp only [List.dropLast_cons₂, List.mem_cons]; right; exact h
+
+theorem rangeRest_torn (fs : FS) (B : List AFile) (hlogs : ∀ f ∈ B, fs.logs.get? f.id = some f.log)
+    (htorn : ∀ f ∈ B.dropLast, f.tail = []) (htails : ∀ f ∈ B, 10 ∉ f.tail)
+    (hgood : ∀ f ∈ B, ∀ it ∈ f.items, GoodItem it) (bs es : Nat) (res : List Char) (items : List MItem)
+    (hcap : items.length + (B.flatMap AFile.items).length + 1 < MAX_ITEM_AMOUNT) :
+    ∃ extra, extra.length ≤ 1 ∧ rangeRest fs bs es res (B.map (·.id)) items =
+      some (items ++ (((B.flatMap AFile.items).map stored).takeWhile (inWin bs es)).filter (resMatch res) ++ extra) := by
+  induction B generalizing items with
+  | nil => exact ⟨[], by simp, by simp [rangeRest]⟩
+  | cons f rest ih =>
+    have hlen : ((f :: rest).flatMap AFile.items).length = (groupsItems f.groups).length + (rest.flatMap AFile.items).length := by
+      simp only [List.flatMap_cons, List.length_append]; rfl
+    simp only [List.map_cons, rangeRest, hlogs f (by simp)]
+    cases rest with
+    | nil =>
+      obtain ⟨extra, c, he, hr, _⟩ := rangeOneFile_torn f.groups [] f.groups rfl f.tail (htails f (by simp)) bs es res items.length
+        (hgood f (by simp)) (by simp only [List.flatMap_nil, List.length_nil, Nat.add_zero] at hlen; omega)
+      have h0 : (groupsBytes []).length = 0 := rfl
+      rw [h0] at hr
+      refine ⟨extra, he, ?_⟩
+      simp only [AFile.log, hr, List.map_nil, rangeRest, ite_self, List.flatMap_cons, List.flatMap_nil, List.append_nil, AFile.items,
+        List.append_assoc]
+    | cons g more =>
+      have hlive : f.tail = [] := htorn f (by simp)
+      have hlog : f.log = groupsBytes f.groups := by simp [AFile.log, hlive]
+      have hr := rangeOneFile_live f.groups [] f.groups rfl bs es res items.length (hgood f (by simp)) (by omega)
+      have h0 : (groupsBytes []).length = 0 := rfl
+      rw [h0] at hr
+      rw [hlog, hr]
+      simp only []
+      by_cases hall : ((groupsItems f.groups).map stored).all (inWin bs es) = true
+      · simp only [hall, if_true]
+        rw [takeWhile_all _ _ hall]
+        have hle : (List.filter (resMatch res) (List.map stored (groupsItems f.groups))).length ≤ (groupsItems f.groups).length :=
+          Nat.le_trans (List.length_filter_le _ _) (by simp)
+        obtain ⟨extra, he, hrr⟩ := ih (fun x hx => hlogs x (by simp [hx])) (fun x hx => htorn x (dropLast_cons_cons_mem f g more x hx))
+          (fun x hx => htails x (by simp [hx])) (fun x hx => hgood x (by simp [hx]))
+          (items ++ List.filter (resMatch res) (List.map stored (groupsItems f.groups))) (by rw [List.length_append]; omega)
+        refine ⟨extra, he, ?_⟩
+        rw [hrr]
+        simp only [List.flatMap_cons, List.map_append, AFile.items]
+        rw [takeWhile_append_pos _ _ _ hall]
+        simp [List.filter_append, List.append_assoc]
+      · have hall' : ((groupsItems f.groups).map stored).all (inWin bs es) = false := by simpa using hall
+        simp only [hall', Bool.false_eq_true, if_false]
+        refine ⟨[], by simp, ?_⟩
+        simp only [List.flatMap_cons, List.map_append, AFile.items, List.append_nil]
+        rw [takeWhile_append_neg _ _ _ hall']
+
+
+theorem dropLast_append_cons {α} (A : List α) (f : α) (B : List α) (hB : B ≠ []) : (A ++ f :: B).dropLast = A ++ f :: B.dropLast := by
+  induction A with
+  | nil =>
+    cases B with
+    | nil => exact absurd rfl hB
+    | cons b r => simp [List.dropLast_cons₂]
+  | cons a r ih =>
+    cases h : r ++ f :: B with
+    | nil => simp at h
+    | cons x y => rw [List.cons_append, h, List.dropLast_cons₂, ← h, ih]; rfl
+
 end Sentinel.MLog
